@@ -8,15 +8,25 @@ def run(rep: Report, repo: Repo, tier: str) -> None:
     rep.unit("src/cminx/__init__.py", "src/cminx/rstwriter.py")
     rep.assume("os.walk(topdown=True) visits exactly the directories left in the yielded list",
                "pathspec decides matches consistently for the same path string")
-    fsrules.rule_same_source(rep, repo, "C14-R1")
-    fsrules.rule_predicates_agree(rep, repo, "C14-R1p")
-    fsrules.rule_stem_agreement(rep, repo, "C14-R1s")
-    fsrules.rule_prechecks_filtered(rep, repo, "C14-R2")
-    fsrules.rule_no_mutation_while_iterating(rep, repo, "C14-R2m")
-    fsrules.rule_topdir_test(rep, repo, "C14-R3")
-    writer_rules.rule_directive_order(rep, repo, "C14-R4")
-    fsrules.rule_index_always_written(rep, repo, "C14-R5")
-    fsrules.rule_isolation(rep, repo, "C14-R6")
+    with rep.isolated():
+        fsrules.rule_same_source(rep, repo, "C14-R1")
+    with rep.isolated():
+        fsrules.rule_predicates_agree(rep, repo, "C14-R1p")
+    with rep.isolated():
+        fsrules.rule_stem_agreement(rep, repo, "C14-R1s")
+    with rep.isolated():
+        fsrules.rule_prechecks_filtered(rep, repo, "C14-R2")
+    with rep.isolated():
+        fsrules.rule_no_mutation_while_iterating(rep, repo, "C14-R2m")
+    with rep.isolated():
+        fsrules.rule_topdir_test(rep, repo, "C14-R3")
+    with rep.isolated():
+        writer_rules.rule_directive_order(rep, repo, "C14-R4")
+    with rep.isolated():
+        fsrules.rule_index_always_written(rep, repo, "C14-R5")
+    with rep.isolated():
+        fsrules.rule_isolation(rep, repo, "C14-R6")
     # "no toctree entry lacks a generated target": the page of <dir>/<name>.cmake is written to <out>/<dir>/<stem>.rst
     from . import pathterms
-    pathterms.rule_page_path(rep, repo, "C14-R7")
+    with rep.isolated():
+        pathterms.rule_page_path(rep, repo, "C14-R7")
